@@ -2,8 +2,8 @@
   C15 — Name server operations are atomic under concurrent clients.
   The name server operations (PyroModel/NsOps.lean) instantiate the generic atomicity theorem
   (PyroProofs/Lock.lean).  The premise — every access of `self.storage` in every NameServer method is
-  lexically inside `with self.lock:` — is the obligation `C15_gen_shape_ok` over the lock shape that
-  the extractor regenerates from nameserver.py on every run.
+  inside `with self.lock:` — is `C15_source_every_access_locked`, over the lock skeletons (PyroModel/LockSkeleton.lean)
+  that the extractor regenerates from nameserver.py on every run.
 -/
 import PyroModel.NsOps
 import PyroProofs.Lock
@@ -13,14 +13,23 @@ namespace Pyro.C15
 
 open Pyro Pyro.Lock Pyro.NsOps
 
-/-- **C15_gen_shape_ok.**  In the current source every NameServer method that touches the storage
-    does so only inside the `with self.lock:` block (0 accesses outside), and the methods the model
-    covers all exist. -/
-theorem C15_gen_shape_ok :
-    (∀ m ∈ Pyro.Gen.C15.nsShape, m.2.2 = 0) ∧
+/-- **C15_gen_locked.**  The lock skeleton of every public method of `NameServer`, extracted from the current source on every
+    run (calls of the class's own helpers inlined; a storage access inside a lambda / generator that is not consumed on the
+    spot counts as unlocked), passes the check `allLocked`; the methods the model covers all exist; the lock is re-entrant
+    (`remove` calls `list` while holding it). -/
+theorem C15_gen_locked :
+    (∀ p ∈ Pyro.Gen.C15.nsSkeletons, Pyro.LockSkeleton.allLocked p.2 0 = true) ∧
     (∀ n ∈ ["count", "lookup", "register", "set_metadata", "remove", "list", "yplookup"],
-        n ∈ Pyro.Gen.C15.nsShape.map (·.1)) ∧
+        n ∈ Pyro.Gen.C15.nsSkeletons.map (·.1)) ∧
     Pyro.Gen.C15.lockKind = "RLock" := by decide
+
+/-- **C15_source_every_access_locked.**  Hence, in the source as it is written now: in every possible execution of every
+    public NameServer method (any branch taken, any number of loop rounds, cut short anywhere by an exception) every use of
+    `self.storage` happens while `self.lock` is held.  This is the premise under which the operations of NsOps are
+    atomic steps (`C15_linearizable`). -/
+theorem C15_source_every_access_locked (p : String × Pyro.LockSkeleton.Sk) (hp : p ∈ Pyro.Gen.C15.nsSkeletons)
+    (t : Pyro.LockSkeleton.Trace) (ht : Pyro.LockSkeleton.Exec p.2 0 t) : ∀ e ∈ t, 0 < e :=
+  Pyro.LockSkeleton.allLocked_sound ht (C15_gen_locked.1 p hp)
 
 /-- **C15_linearizable.**  For every initial map, every multiset of concurrent calls and every
     schedule (any number of clients, any length, any preemption pattern): the completed calls took
